@@ -20,7 +20,7 @@ META = {
     "stubs": ["scipy.optimize.minimize -> evaluates the objective at x0 and at one symbolic candidate within the bounds, returns the better one with fun == f(x) "
               "(scipy's contract), or success=False", "scipy.integrate.solve_ivp/ode -> uninterpreted flow",
               "np/pd/float module globals of mxlpy.fit.*, minimizers._scipy, model, simulator, simulation rebound to proxies"],
-    "outside": "that scipy's optimisers descend; global minimisers; ensemble / carousel / joint routines",
+    "outside": "the 'not rewarded for size' law of mean_squared_logarithmic for vectors longer than 1 (z3 unknown); that scipy's optimisers descend; global minimisers; ensemble / carousel / joint routines",
     "assumptions_list": ["log is monotone (axiom instances added per pair of applications)", "loss domains: values positive where a loss divides or takes logarithms", "real arithmetic"],
 }
 
@@ -233,6 +233,8 @@ def scenarios(tier, seed):
                 for swapped in (False, True):
                     if loss in ("mean", "cosine_similarity") and not (n == 2):
                         continue  # minimal scenarios for the two open findings
+                    if loss == "mean_squared_logarithmic" and law == "not_rewarded_for_size" and n > 1:
+                        continue  # sums of squared log differences: z3 answered unknown under load in a probe (stated in META.outside)
                     scs.append(Law(loss, n, law, swapped))
     for kind in ("tc", "ss", "ptc"):
         key_sets = [("k",), ("x", "k"), ("k", "x"), ("x",)] if kind != "ptc" else [("x",)]
